@@ -111,6 +111,10 @@ def NumClass.str : NumClass → String
 /-- `c in tok` -/
 def hasChar (c : Char) (cs : List Char) : Bool := cs.any (· == c)
 
+/-- `tok.startswith((p₁, p₂, …))` — used by the test regenerated from the live source
+    (`Generated.c02AutoNumberIsFloat`) -/
+def startsWithAny (ps : List (List Char)) (cs : List Char) : Bool := ps.any fun p => p.isPrefixOf cs
+
 /-- `tok.startswith(('0x', '0X'))` -/
 def startsHex (cs : List Char) : Bool :=
   match cs with
